@@ -13,7 +13,7 @@ from __future__ import annotations
 import ast
 
 from ..core import UNKNOWN, AnalysisError, FuncInfo, body_no_doc, call_name, get_arg, is_self_attr, norm, walk_no_nested
-from ..paths import structural_guards
+from ..paths import enclosing_loops, structural_guards
 from ..tomrun import COPY_GETTERS, run_tom
 
 EXPLANATION = (
@@ -54,7 +54,7 @@ def _arms(f: FuncInfo):
 
 def r08c(ctx):
     repo = ctx.repo
-    ctx.rule("R08c", "expanding traversals: clone, stamp, clear the repeat (run > 1, or range starting inside a run, tested on the stamped x), then advance", floor=4)
+    ctx.rule("R08c", "expanding traversals: clone, stamp, clear the repeat (run > 1, or range starting inside a run, tested on the stamped x), then advance; run arithmetic starts from before = x - 1", floor=8)
     for q in ("Row.traverse", "Table.traverse_columns"):
         f = repo.func(q)
         arms = _arms(f)
@@ -141,6 +141,55 @@ def r08c(ctx):
             if not ok:
                 ctx.report("R08c", f, loop, f"{q} arm {i + 1}: {why}",
                            f"expanding traversal {q} ({'range' if ranged else 'full'} arm): {why}; a returned copy can still carry a repeat count")
+            # the run arithmetic: `repeat = <last position of the run> - <before>` is the number of positions of the run from x on only if
+            # before = x - 1 when the loop over the runs starts (then each run leaves before' = last, x' = last + 1)
+            from ..paths import cfg_of, node_of, reaching_defs
+            from .c01 import Aff
+            outer = [l for l in enclosing_loops(loop) if isinstance(l, ast.For)]
+            rdef = [a_ for l in outer for a_ in ast.walk(l) if isinstance(a_, ast.Assign) and isinstance(a_.targets[0], ast.Name) and a_.targets[0].id == rep
+                    and isinstance(a_.value, ast.BinOp) and isinstance(a_.value.op, ast.Sub) and isinstance(a_.value.right, ast.Name)]
+            if outer and rdef and xv is not None:
+                ol = outer[0]
+                bv = rdef[0].value.right.id
+                cfg = cfg_of(f)
+                head = node_of(cfg, ol)
+                inside = {id(x) for x in ast.walk(ol)}
+                byid = {n_.id: n_ for n_ in cfg.nodes}
+
+                def aff(e):
+                    if isinstance(e, ast.Constant) and isinstance(e.value, int) and not isinstance(e.value, bool):
+                        return Aff(c=e.value)
+                    if isinstance(e, ast.Name) and e.id == "start":
+                        return Aff({"start": 1})
+                    if isinstance(e, ast.UnaryOp) and isinstance(e.op, ast.USub):
+                        a1 = aff(e.operand)
+                        return None if a1 is None else -a1
+                    if isinstance(e, ast.BinOp) and isinstance(e.op, (ast.Add, ast.Sub)):
+                        a1, b1 = aff(e.left), aff(e.right)
+                        if a1 is None or b1 is None:
+                            return None
+                        return a1 + b1 if isinstance(e.op, ast.Add) else a1 - b1
+                    return None
+
+                def entry_forms(var):
+                    out = []
+                    for d in reaching_defs(cfg, var).get(head.id, frozenset()):
+                        st = byid[d].stmt
+                        if st is None or id(st) in inside:
+                            continue  # loop-carried definition
+                        out.append((st, aff(st.value) if isinstance(st, ast.Assign) else None))
+                    return out
+
+                fb, fx = entry_forms(bv), entry_forms(xv)
+                bad = [(sb, sx) for sb, ab in fb for sx, ax in fx if ab is None or ax is None or not (ab == ax - Aff(c=1))]
+                oki = bool(fb) and bool(fx) and not bad
+                ctx.instance("R08c", where, f"arm {i + 1}: on entering the loop over the runs, {bv} = {xv} - 1 "
+                             f"({[repr(a_) for _, a_ in fb]} vs {[repr(a_) for _, a_ in fx]})", ok=oki, nontrivial=True, line=ol.lineno)
+                if not oki:
+                    sb = bad[0][0] if bad else ol
+                    ctx.report("R08c", f, sb, f"{q} arm {i + 1}: `{bv}` is not `{xv} - 1` when the run loop starts ({norm(sb, 40)})",
+                               f"{q} computes the copies of a run as (last position of the run) - `{bv}`; that is the remainder of the run from `{xv}` on only if `{bv}` = `{xv}` - 1 "
+                               f"when the loop starts. With another value a range starting inside a repeated run yields the run's full count and overruns the items that follow")
             # each expansion step of a ranged arm is bounded by the end of the range
             if ranged and xv is not None:
                 okb = any(isinstance(n, ast.If) and isinstance(n.test, ast.Compare) and len(n.test.ops) == 1 and (
@@ -366,6 +415,10 @@ from ..selftest import Seed, unparse_seed  # noqa: E402
 _T = "src/odfdo/table.py"
 _R = "src/odfdo/row.py"
 SEEDS = [
+    Seed("ranged column traversal does not rebase `before` on the start", "fault", _T,
+         "            idx = start_map - 1\n            before = start - 1\n            x = start\n            for juska in self._cmap[start_map:]:",
+         "            idx = start_map - 1\n            x = start\n            for juska in self._cmap[start_map:]:", "R08c"),
+    Seed("full cell traversal starts before at 0", "fault", _R, "        idx = -1\n        before = -1\n        x = 0\n", "        idx = -1\n        before = 0\n        x = 0\n", "R08c"),
     Seed("row producer clones a repeated row once for the whole run", "fault", _T, '                for _ in range(row.repeated):\n                    row_copy = row.clone\n                    row_copy.repeated = None\n                    yield row_copy\n', '                row_copy = row.clone\n                row_copy.repeated = None\n                for _ in range(row.repeated):\n                    yield row_copy\n', "R08f"),
     Seed("row producer: copy renamed", "neutral", _T, '                for _ in range(row.repeated):\n                    row_copy = row.clone\n                    row_copy.repeated = None\n                    yield row_copy\n', '                for _ in range(row.repeated):\n                    one = row.clone\n                    one.repeated = None\n                    yield one\n'),
     Seed("Table.traverse counts from 0 though it advances before stamping", "fault", _T, '        y = -1\n        for row in self._yield_odf_rows():\n            y += 1\n            if y < start:\n                continue\n            if y > end:\n                return\n            row.y = y\n            yield row\n', '        y = 0\n        for row in self._yield_odf_rows():\n            y += 1\n            if y < start:\n                continue\n            if y > end:\n                return\n            row.y = y\n            yield row\n', "R08f"),
